@@ -64,6 +64,21 @@ func flagsFromMask(mask int, unknown bool) []string {
 	}
 	if unknown {
 		fs = append(fs, "DISABLE_EVERYTHING", "disable_session_state", "")
+		// names that merely resemble a flag that is NOT set: a value appended, another case, a plural
+		for i, f := range allFlags {
+			if mask&(1<<i) == 0 {
+				switch i % 4 {
+				case 0:
+					fs = append(fs, f+"=false")
+				case 1:
+					fs = append(fs, f+"=0")
+				case 2:
+					fs = append(fs, strings.ToLower(f))
+				default:
+					fs = append(fs, f+"S")
+				}
+			}
+		}
 	}
 	return fs
 }
